@@ -99,6 +99,23 @@ Proof.
   apply N.eqb_eq in E. subst. f_equal. apply IH. cbn. now rewrite L, H.
 Qed.
 
+Definition isbytes (s : bytes) : Prop := Forall (fun b => b < 256) s.
+
+Lemma encode62_isbytes z : isbytes (encode62 z).
+Proof.
+  assert (D : forall n, isbytes (map digit_char (to_digits 62 n))).
+  { intros n. apply Forall_forall. intros x Hx. apply in_map_iff in Hx. destruct Hx as [d [<- Hd]].
+    pose proof (to_digits_lt 62 n ltac:(lia)) as F. rewrite Forall_forall in F.
+    pose proof (digit_char_range d (F d Hd)). lia. }
+  destruct z; cbn [encode62].
+  - constructor; [lia|constructor].
+  - apply D.
+  - constructor; [lia|apply D].
+Qed.
+
+Lemma zeros_isbytes n : isbytes (zeros n).
+Proof. induction n; constructor; [lia|assumption]. Qed.
+
 Local Close Scope N_scope.
 Local Open Scope Z_scope.
 
@@ -109,9 +126,9 @@ Variable nonce : bytes.      (* receiver's CTR nonce *)
 Variable iv : bytes.         (* sender's IV (in CTR mode: its nonce) *)
 
 Hypothesis mac_len : forall x, length (mac P x) = maclen P.
-Hypothesis dec_enc : forall h p, c_dec P h (c_enc P h p) = p.
+Hypothesis dec_enc : forall h p, isbytes p -> c_dec P h (c_enc P h p) = p.
 Hypothesis enc_len : forall h p, length (c_enc P h p) = length p.
-Hypothesis enc_byte : forall h p, Forall (fun b => (b < 256)%N) (c_enc P h p).
+Hypothesis enc_byte : forall h p, isbytes p -> isbytes (c_enc P h p).
 Hypothesis same_nonce : ctr_mode c = true -> nonce = iv.
 
 (* what the receiver makes of the honest value: with encryption, values below 0 fall under the hiding offset *)
@@ -136,10 +153,12 @@ Proof.
   intros E Hs Hne Hct Hcfb Hctr.
   assert (Lct : ct <> []).
   { intros Z. apply (f_equal (@length _)) in Z. rewrite Hct, enc_len, app_length in Z. destruct str; [congruence|cbn in Z; lia]. }
+  assert (IB : isbytes (str ++ zeros n)).
+  { apply Forall_app. split; [rewrite Hs; apply encode62_isbytes|apply zeros_isbytes]. }
   assert (EX : export_be (Z.abs_N (Z.of_N (import_be (c_plus :: ct)))) = c_plus :: ct).
-  { rewrite Zabs2N.id. apply export_import; [discriminate|reflexivity|]. rewrite Hct. apply enc_byte. }
+  { rewrite Zabs2N.id. apply export_import; [discriminate|reflexivity|]. rewrite Hct. now apply enc_byte. }
   assert (DP : decode62 (c_dec P h1 ct) = Some tmp).
-  { rewrite Hct, dec_enc, Hs, decode62_app_zeros by apply encode62_nozero. apply base62_roundtrip. }
+  { rewrite Hct, dec_enc by assumption. rewrite Hs, decode62_app_zeros by apply encode62_nozero. apply base62_roundtrip. }
   unfold open_line. rewrite E.
   destruct (ctr_mode c) eqn:CM.
   - destruct (Hctr eq_refl) as (cv & Hcv & Hsz & -> & Hh).
